@@ -326,7 +326,8 @@ pub fn gen_expr(ch: &mut Choices, cx: &mut GenCx, depth: u32) -> Expr {
             Expr::MapN(k, (0..n).map(|_| gen_expr(ch, cx, depth + 1)).collect())
         }
         3 => {
-            let n = 1 + ch.choose(4);
+            // decoder 2: a fold over no inputs at all is possible too
+            let n = if crate::choice::dv() >= 2 { (ch.choose(9) + 1) / 2 } else { 1 + ch.choose(4) };
             let k = ch.byte() % 6;
             Expr::Fold(k, (0..n).map(|_| gen_expr(ch, cx, depth + 1)).collect())
         }
